@@ -44,7 +44,7 @@ var profC13 = ConcProfile{
 var profC13Seq = Profile{
 	MaxBars: 3, MinBars: 1, MaxSteps: 25, Refresh: []string{"manual", "autoinj"}, QLens: []int{-1},
 	Pop: 20, Rm: 30, AbortW: 1, TicksW: 6, Text: 3, RepeatText: 5, StaticTexts: true,
-	PlainDecors: 1, Fillers: []string{"tag", "nop"}, LateAdd: true,
+	PlainDecors: 1, Fillers: []string{"tag", "nop"}, LateAdd: true, Delay: 25,
 }
 
 func genC13(t *rapid.T) interface{} {
@@ -112,7 +112,7 @@ func runC13(ci interface{}) Result {
 		dumpHang(sc, tr)
 		return r
 	}
-	r.Classes = append(r.Classes, "refresh:"+sc.Cfg.Refresh)
+	r.Classes = append(append(r.Classes, "refresh:"+sc.Cfg.Refresh), featureClasses(sc)...)
 	auto := sc.Cfg.Refresh == "autort" || sc.Cfg.Refresh == "autoinj"
 	// concatenate the chunks, remember where each starts
 	var all []byte
@@ -186,6 +186,32 @@ func runC13(ci interface{}) Result {
 			}
 		}
 	}
+	// render delay: text accepted while the delay is pending is dropped by design
+	// ("whose rendering has started"); once the delay has been released every
+	// accepted write counts
+	pre := map[string]int{}
+	if sc.Cfg.Delay {
+		relSeq := int64(1) << 62
+		for _, e := range tr.Events {
+			if e.Point == "client.release" {
+				relSeq = e.Seq
+				break
+			}
+		}
+		npost := 0
+		for i := range tr.Writes[:inProgram] {
+			if w := &tr.Writes[i]; w.Err == nil && w.N == len(w.Text) {
+				if w.InvSeq < relSeq {
+					pre[w.Text]++
+				} else {
+					npost++
+				}
+			}
+		}
+		if npost > 0 {
+			r.Classes = append(r.Classes, "write-after-delay")
+		}
+	}
 	repeated := false
 	for i := range tr.Writes[:inProgram] {
 		w := &tr.Writes[i]
@@ -197,7 +223,7 @@ func runC13(ci interface{}) Result {
 			if want > 1 {
 				repeated = true
 			}
-			if n > want || n < want-tail[w.Text] {
+			if n > want || n < want-tail[w.Text]-pre[w.Text] {
 				r.Err, r.Kind = fmt.Errorf("Write(%q) reported success %d time(s) but its bytes occur %d time(s) in the output", w.Text, want, n), "count"
 				return r
 			}
